@@ -287,19 +287,27 @@ func checkC04(e *Env) {
 	parallel(nh, e.Workers, func(h int) {
 		g := &seqGen{e: e, r: rng.New(e.Seed, "C04-hist-"+itoa(h)), bufs: map[int][]byte{}}
 		g.memoHunt(3)
+		// odd histories hold the seed calls only, even ones also the other functions' calls
+		// (validations that fail in every way, generators) in between
 		var ops []plan.Op
 		for _, op := range g.ops {
-			if op.Fn == "seed" {
+			if op.Fn == "seed" || h%2 == 0 {
 				op.I, op.Keep = len(ops), false
 				ops = append(ops, op)
 			}
 		}
 		res, died := e.RunProc(drv, ops, nil, 0)
 		if died != "" {
+			if culprit := ops[min(len(res), len(ops)-1)]; culprit.Fn != "seed" {
+				return // another function's crash: not this property's subject
+			}
 			e.Violate(&Violation{What: "MnemonicToSeed killed the process in a sequence of calls: " + oneLine(died, 300), Ops: ops[:min(len(res)+1, len(ops))]})
 			return
 		}
 		for i := range res {
+			if ops[i].Fn != "seed" {
+				continue
+			}
 			want, ok := e.RefSeed(ops[i].Str(), ops[i].Pass())
 			if !ok || res[i].Panic != "" {
 				continue
@@ -347,7 +355,7 @@ func checkC04(e *Env) {
 		"evaluations":                      stats.Ops,
 		"distinct_nontrivial":              dist.Len(),
 		"calls_repeated_under_concurrency": concCalls,
-		"rule":                             "a case is a pair (mnemonic, passphrase) of valid-UTF-8 strings over CPython-assigned code points with non-starter runs <= 25: empty/ASCII, valid and invalid mnemonics of all ten languages, lengths around and far beyond the 128-byte HMAC block for either argument, NFC/NFD/NFKC/NFKD spellings, compatibility characters, mark sequences in non-canonical order, arguments beginning with combining marks, Hangul syllables/jamo, seeded random strings (80 % decomposing or combining code points); every case is compared with PBKDF2 written out over crypto/hmac with CPython's NFKD; histories of seed calls in one process (identical arguments, almost identical ones, the same concatenation split at another place between mnemonic and passphrase); one case in eight also observes freshness (two calls, second result clobbered, first re-read, backing arrays compared); distinct = distinct (mnemonic, passphrase)",
+		"rule":                             "a case is a pair (mnemonic, passphrase) of valid-UTF-8 strings over CPython-assigned code points with non-starter runs <= 25: empty/ASCII, valid and invalid mnemonics of all ten languages, lengths around and far beyond the 128-byte HMAC block for either argument, NFC/NFD/NFKC/NFKD spellings, compatibility characters, mark sequences in non-canonical order, arguments beginning with combining marks, Hangul syllables/jamo, seeded random strings (80 % decomposing or combining code points); every case is compared with PBKDF2 written out over crypto/hmac with CPython's NFKD; histories in one process (identical arguments, almost identical ones, the same concatenation split at another place between mnemonic and passphrase; half of the histories also hold failing and succeeding calls of the other functions in between); one case in eight also observes freshness (two calls, second result clobbered, first re-read, backing arrays compared); distinct = distinct (mnemonic, passphrase)",
 		"samples":                          smp.List(),
 		"cases_by_class":                   classes.Map(),
 		"observations":                     stat.Map(),
